@@ -558,6 +558,26 @@ int __wrap_unlink(const char *path)
   return 0;
 }
 
+// atexit() of the code under test: the handlers run when the simulated process exits (exit() or return from main), last
+// registered first, as the C library would run them.
+static std::vector<void (*)(void)> g_atexit;
+
+int __wrap_atexit(void (*fn)(void))
+{
+  g_atexit.push_back(fn);
+  return 0;
+}
+
+void sim_run_atexit()
+{
+  while (!g_atexit.empty())
+  {
+    void (*fn)(void) = g_atexit.back();
+    g_atexit.pop_back();
+    fn();
+  }
+}
+
 void __wrap_exit(int status)
 {
   sim_count(C_EXIT_CALLS);
@@ -565,9 +585,11 @@ void __wrap_exit(int status)
   {
     // in-process history (mode 2): exit() ends this assembly, not the process
     g_exit_status = status;
+    sim_run_atexit();
     sim_event(SEAM_EXIT, 100, (uint64_t)(int64_t)status);
     longjmp(g_exit_jmp, 1);
   }
+  sim_run_atexit();
   sim_finish(HOW_EXIT, status);
 }
 
@@ -887,7 +909,7 @@ static void child_main(const uint8_t *req, size_t len, int stderr_fd)
   switch (mode)
   {
     case 0:
-    case 1: status = run_main(mode, args); break;
+    case 1: status = run_main(mode, args); sim_run_atexit(); break;
     case 2: status = engine_inproc_asm(rq); break;
     case 3: status = engine_util_api(rq); break;
     case 4: status = engine_c14(rq); break;
